@@ -167,7 +167,18 @@ def gen_kernels():
     except pytrans_int.Unsupported as ex:
         txt = ("(* GENERATED: harness/pytrans_int.py could not translate the current source: %s *)\n"
                "Definition translation_failed : True := untranslatable_source.\n" % str(ex).replace("*)", "* )"))
-    path = os.path.join(COQ, "Gen", "IntKernelsGen.v")
+    _write_gen("IntKernelsGen.v", txt)
+    import pytrans_arr
+    try:
+        txt = pytrans_arr.generate(REPO)
+    except pytrans_arr.Unsupported as ex:
+        txt = ("(* GENERATED: harness/pytrans_arr.py could not translate the current source: %s *)\n"
+               "Definition translation_failed : True := untranslatable_source.\n" % str(ex).replace("*)", "* )"))
+    _write_gen("Chi2Gen.v", txt)
+
+
+def _write_gen(fname, txt):
+    path = os.path.join(COQ, "Gen", fname)
     old = open(path).read() if os.path.exists(path) else None
     if old != txt:
         with open(path, "w") as f:
